@@ -4,6 +4,7 @@ import (
 	"bytes"
 	"context"
 	"encoding/hex"
+	"errors"
 	"fmt"
 	"io"
 	"math"
@@ -27,11 +28,22 @@ import (
 type chunkReader struct {
 	chunks [][]byte
 	eager  bool
+	fail   bool // after the chunks the source fails with errSource instead of io.EOF
+}
+
+// errSource is the I/O error of a failing source (anything but io.EOF / io.ErrUnexpectedEOF).
+var errSource = errors.New("source failed")
+
+func (c *chunkReader) end() error {
+	if c.fail {
+		return errSource
+	}
+	return io.EOF
 }
 
 func (c *chunkReader) Read(p []byte) (int, error) {
 	if len(c.chunks) == 0 {
-		return 0, io.EOF
+		return 0, c.end()
 	}
 	head := c.chunks[0]
 	n := copy(p, head)
@@ -41,7 +53,7 @@ func (c *chunkReader) Read(p []byte) (int, error) {
 		c.chunks = c.chunks[1:]
 	}
 	if c.eager && len(c.chunks) == 0 {
-		return n, io.EOF
+		return n, c.end()
 	}
 	return n, nil
 }
@@ -220,6 +232,8 @@ func errName(err error) string {
 		return "sizeLimit"
 	case err == io.ErrUnexpectedEOF:
 		return "unexpectedEOF"
+	case err == errSource:
+		return "io"
 	case err.Error() == "binary: varint overflows a 64-bit integer":
 		return "overflow"
 	}
@@ -665,7 +679,7 @@ func (st *state) exec(line string) string {
 		}
 		st.buf = bytex.NewReadableBufferX(append([]byte{}, cut...))
 		return fmt.Sprintf("ok len=%d full=%d", st.buf.Len(), len(full))
-	case "sload":
+	case "sload", "sloadf":
 		if len(f) != 3 {
 			break
 		}
@@ -674,12 +688,12 @@ func (st *state) exec(line string) string {
 		if !ok || (f[1] != "0" && f[1] != "1") {
 			return "bad-op"
 		}
-		st.cr = &chunkReader{chunks: chunks, eager: f[1] == "1"}
+		st.cr = &chunkReader{chunks: chunks, eager: f[1] == "1", fail: f[0] == "sloadf"}
 		st.rd = bytex.NewReaderX(st.cr)
 		st.shadow = bytex.NewReadableBufferX(st.cr.left())
 		return fmt.Sprintf("ok left=%d", len(st.cr.left()))
 	}
-	if f[0] == "new" || f[0] == "news" || f[0] == "load" || f[0] == "tload" || f[0] == "sload" || f[0] == "bigrt" {
+	if f[0] == "new" || f[0] == "news" || f[0] == "load" || f[0] == "tload" || f[0] == "sload" || f[0] == "sloadf" || f[0] == "bigrt" {
 		// ill-formed initialising line that the oracle does not recognise as one either: state unchanged
 		return "bad-op"
 	}
@@ -807,6 +821,23 @@ func (st *state) bigrt(kind, seedS, nS, via string) string {
 	return out
 }
 
+// varintShape looks at the bytes a varint read is about to see (independently of encoding/binary and of the model):
+// "" = a complete varint of at most 64 bits; otherwise why no value may come out of it.
+func varintShape(b []byte) string {
+	for i := 0; i < 10; i++ {
+		if i >= len(b) {
+			return "truncated"
+		}
+		if b[i] < 0x80 {
+			if i == 9 && b[i] > 1 {
+				return "overflowing (tenth byte > 1)"
+			}
+			return ""
+		}
+	}
+	return "overflowing (ten continuation bytes)"
+}
+
 // fresh: a buffer just made by a constructor holds nothing (the theorems start from the empty buffer).
 func (st *state) fresh(how string) string {
 	if n := st.buf.Len(); n != 0 || len(st.buf.Bytes()) != 0 {
@@ -842,11 +873,18 @@ func (st *state) execBuf(f []string) string {
 		return fmt.Sprintf("ok len=%d", b.Len())
 	}
 	if r, ok := parseRead(f); ok {
+		malformed := ""
+		if r.varint {
+			malformed = varintShape(b.Bytes())
+		}
 		var raw []byte
 		v, err, p := call(func() (v string, err error) { v, raw, err = r.do(b, b.ReadU8, b); return })
 		if p != nil {
 			st.hit("read:panic", fmt.Sprintf("%s panicked on a buffer: %v", r.name, p))
 			return "panic"
+		}
+		if malformed != "" && err == nil {
+			st.hit("malformed-varint:value-with-nil-error", fmt.Sprintf("%s on a %s varint returned the value %s with a nil error", r.name, malformed, v))
 		}
 		if r.rawRun != nil && err == nil {
 			st.keep("BufferX", r.name, raw, false)
@@ -1076,6 +1114,8 @@ func (st *state) execStream(f []string) string {
 				}
 				what := fmt.Sprintf("%s: ReaderX over chunks gives %s, BufferX over the same bytes gives %s", r.name, show(v, err, nleft), show(sv, serr, st.shadow.Len()))
 				switch {
+				case st.cr.fail && err == nil && serr != nil:
+					st.hit("ReaderX:source-error-swallowed", fmt.Sprintf("%s: the source failed before delivering the bytes of this value (BufferX over the delivered bytes: err:%s), yet ReaderX returned the value %s with a nil error", r.name, errName(serr), v))
 				case err == bytex.ErrReadWrongNum && serr == nil && sv == "-":
 					st.hit("ReaderX-vs-BufferX:empty-string-rejected-by-stream", what)
 				case err != nil && (serr == nil || nleft != st.shadow.Len()) && (err == bytex.ErrByteBufferEmpty || err == io.EOF || err == io.ErrUnexpectedEOF):
